@@ -30,8 +30,8 @@ ASSUMPTIONS = ["astropy WCS all_pix2world/all_world2pix semantics",
 MUTANTS = [
     ("pixel beam handed out with the sky position angle",
      "AegeanTools/wcs_helpers.py",
-     "            return self._psf_a, self._psf_b, self._psf_theta\n        psf_sky",
-     "            return self._psf_a, self._psf_b, self.beam.pa\n        psf_sky",
+     "            return self._psf_a, self._psf_b, self._psf_theta\n\n        psf_sky",
+     "            return self._psf_a, self._psf_b, self.beam.pa\n\n        psf_sky",
      "C16-R14"),
     ("vector angle read back with the wrong sign of dy",
      "AegeanTools/wcs_helpers.py",
